@@ -47,8 +47,10 @@ fn main() {
     // Handle SIGTERM (sent by VS Code)
     let interrupted_clone = Arc::clone(&interrupted);
     unsafe {
+        // This closure runs in signal context, possibly while the interrupted thread is inside
+        // `eprintln!` itself: it must only do async-signal-safe work (printing from here panicked on
+        // the already borrowed stderr handle, which aborts the process and leaves the lock behind)
         signal_hook::low_level::register(signal_hook::consts::SIGTERM, move || {
-            eprintln!("\nReceived SIGTERM. Cleaning up...");
             interrupted_clone.store(true, Ordering::SeqCst);
         })
         .expect("Error setting SIGTERM handler");
